@@ -117,27 +117,31 @@ Record state := mkState {
   led : ledger; sup : Z -> Z;
   (* ghost: what each pair escrow owes to its live orders (remaining offer + unreleased fee
      reserve), and the net of the recorded fills that went through it *)
-  owed : Z -> Z -> Z -> Z; surplus : Z -> Z -> Z -> Z }.
+  owed : Z -> Z -> Z -> Z; surplus : Z -> Z -> Z -> Z;
+  (* ghost: coins of the pending deposit / withdrawal requests per denom; pool coins recorded as farmed per pool-coin denom *)
+  ge_owed : Z -> Z; farmed : Z -> Z }.
 
 Definition init : state :=
-  mkState [] [] [] [] [] [] [] [] [] [] [] [] (fun _ _ => 0) (fun _ => 0) (fun _ _ _ => 0) (fun _ _ _ => 0).
+  mkState [] [] [] [] [] [] [] [] [] [] [] [] (fun _ _ => 0) (fun _ => 0) (fun _ _ _ => 0) (fun _ _ _ => 0) (fun _ => 0) (fun _ => 0).
 
-Definition set_orders (s : state) v := mkState (apps s) (assets s) (pairs s) (last_pair s) v (mmidx s) (pools s) (last_pool s) (deps s) (wds s) (qfs s) (afs s) (led s) (sup s) (owed s) (surplus s).
-Definition set_pairs (s : state) v := mkState (apps s) (assets s) v (last_pair s) (orders s) (mmidx s) (pools s) (last_pool s) (deps s) (wds s) (qfs s) (afs s) (led s) (sup s) (owed s) (surplus s).
-Definition set_last_pair (s : state) v := mkState (apps s) (assets s) (pairs s) v (orders s) (mmidx s) (pools s) (last_pool s) (deps s) (wds s) (qfs s) (afs s) (led s) (sup s) (owed s) (surplus s).
-Definition set_mmidx (s : state) v := mkState (apps s) (assets s) (pairs s) (last_pair s) (orders s) v (pools s) (last_pool s) (deps s) (wds s) (qfs s) (afs s) (led s) (sup s) (owed s) (surplus s).
-Definition set_pools (s : state) v := mkState (apps s) (assets s) (pairs s) (last_pair s) (orders s) (mmidx s) v (last_pool s) (deps s) (wds s) (qfs s) (afs s) (led s) (sup s) (owed s) (surplus s).
-Definition set_last_pool (s : state) v := mkState (apps s) (assets s) (pairs s) (last_pair s) (orders s) (mmidx s) (pools s) v (deps s) (wds s) (qfs s) (afs s) (led s) (sup s) (owed s) (surplus s).
-Definition set_deps (s : state) v := mkState (apps s) (assets s) (pairs s) (last_pair s) (orders s) (mmidx s) (pools s) (last_pool s) v (wds s) (qfs s) (afs s) (led s) (sup s) (owed s) (surplus s).
-Definition set_wds (s : state) v := mkState (apps s) (assets s) (pairs s) (last_pair s) (orders s) (mmidx s) (pools s) (last_pool s) (deps s) v (qfs s) (afs s) (led s) (sup s) (owed s) (surplus s).
-Definition set_qfs (s : state) v := mkState (apps s) (assets s) (pairs s) (last_pair s) (orders s) (mmidx s) (pools s) (last_pool s) (deps s) (wds s) v (afs s) (led s) (sup s) (owed s) (surplus s).
-Definition set_afs (s : state) v := mkState (apps s) (assets s) (pairs s) (last_pair s) (orders s) (mmidx s) (pools s) (last_pool s) (deps s) (wds s) (qfs s) v (led s) (sup s) (owed s) (surplus s).
-Definition set_led (s : state) v := mkState (apps s) (assets s) (pairs s) (last_pair s) (orders s) (mmidx s) (pools s) (last_pool s) (deps s) (wds s) (qfs s) (afs s) v (sup s) (owed s) (surplus s).
-Definition set_sup (s : state) v := mkState (apps s) (assets s) (pairs s) (last_pair s) (orders s) (mmidx s) (pools s) (last_pool s) (deps s) (wds s) (qfs s) (afs s) (led s) v (owed s) (surplus s).
-Definition set_owed (s : state) v := mkState (apps s) (assets s) (pairs s) (last_pair s) (orders s) (mmidx s) (pools s) (last_pool s) (deps s) (wds s) (qfs s) (afs s) (led s) (sup s) v (surplus s).
-Definition set_surplus (s : state) v := mkState (apps s) (assets s) (pairs s) (last_pair s) (orders s) (mmidx s) (pools s) (last_pool s) (deps s) (wds s) (qfs s) (afs s) (led s) (sup s) (owed s) v.
-Definition set_apps (s : state) v := mkState v (assets s) (pairs s) (last_pair s) (orders s) (mmidx s) (pools s) (last_pool s) (deps s) (wds s) (qfs s) (afs s) (led s) (sup s) (owed s) (surplus s).
-Definition set_assets (s : state) v := mkState (apps s) v (pairs s) (last_pair s) (orders s) (mmidx s) (pools s) (last_pool s) (deps s) (wds s) (qfs s) (afs s) (led s) (sup s) (owed s) (surplus s).
+Definition set_apps (s : state) v := mkState v (assets s) (pairs s) (last_pair s) (orders s) (mmidx s) (pools s) (last_pool s) (deps s) (wds s) (qfs s) (afs s) (led s) (sup s) (owed s) (surplus s) (ge_owed s) (farmed s).
+Definition set_assets (s : state) v := mkState (apps s) v (pairs s) (last_pair s) (orders s) (mmidx s) (pools s) (last_pool s) (deps s) (wds s) (qfs s) (afs s) (led s) (sup s) (owed s) (surplus s) (ge_owed s) (farmed s).
+Definition set_pairs (s : state) v := mkState (apps s) (assets s) v (last_pair s) (orders s) (mmidx s) (pools s) (last_pool s) (deps s) (wds s) (qfs s) (afs s) (led s) (sup s) (owed s) (surplus s) (ge_owed s) (farmed s).
+Definition set_last_pair (s : state) v := mkState (apps s) (assets s) (pairs s) v (orders s) (mmidx s) (pools s) (last_pool s) (deps s) (wds s) (qfs s) (afs s) (led s) (sup s) (owed s) (surplus s) (ge_owed s) (farmed s).
+Definition set_orders (s : state) v := mkState (apps s) (assets s) (pairs s) (last_pair s) v (mmidx s) (pools s) (last_pool s) (deps s) (wds s) (qfs s) (afs s) (led s) (sup s) (owed s) (surplus s) (ge_owed s) (farmed s).
+Definition set_mmidx (s : state) v := mkState (apps s) (assets s) (pairs s) (last_pair s) (orders s) v (pools s) (last_pool s) (deps s) (wds s) (qfs s) (afs s) (led s) (sup s) (owed s) (surplus s) (ge_owed s) (farmed s).
+Definition set_pools (s : state) v := mkState (apps s) (assets s) (pairs s) (last_pair s) (orders s) (mmidx s) v (last_pool s) (deps s) (wds s) (qfs s) (afs s) (led s) (sup s) (owed s) (surplus s) (ge_owed s) (farmed s).
+Definition set_last_pool (s : state) v := mkState (apps s) (assets s) (pairs s) (last_pair s) (orders s) (mmidx s) (pools s) v (deps s) (wds s) (qfs s) (afs s) (led s) (sup s) (owed s) (surplus s) (ge_owed s) (farmed s).
+Definition set_deps (s : state) v := mkState (apps s) (assets s) (pairs s) (last_pair s) (orders s) (mmidx s) (pools s) (last_pool s) v (wds s) (qfs s) (afs s) (led s) (sup s) (owed s) (surplus s) (ge_owed s) (farmed s).
+Definition set_wds (s : state) v := mkState (apps s) (assets s) (pairs s) (last_pair s) (orders s) (mmidx s) (pools s) (last_pool s) (deps s) v (qfs s) (afs s) (led s) (sup s) (owed s) (surplus s) (ge_owed s) (farmed s).
+Definition set_qfs (s : state) v := mkState (apps s) (assets s) (pairs s) (last_pair s) (orders s) (mmidx s) (pools s) (last_pool s) (deps s) (wds s) v (afs s) (led s) (sup s) (owed s) (surplus s) (ge_owed s) (farmed s).
+Definition set_afs (s : state) v := mkState (apps s) (assets s) (pairs s) (last_pair s) (orders s) (mmidx s) (pools s) (last_pool s) (deps s) (wds s) (qfs s) v (led s) (sup s) (owed s) (surplus s) (ge_owed s) (farmed s).
+Definition set_led (s : state) v := mkState (apps s) (assets s) (pairs s) (last_pair s) (orders s) (mmidx s) (pools s) (last_pool s) (deps s) (wds s) (qfs s) (afs s) v (sup s) (owed s) (surplus s) (ge_owed s) (farmed s).
+Definition set_sup (s : state) v := mkState (apps s) (assets s) (pairs s) (last_pair s) (orders s) (mmidx s) (pools s) (last_pool s) (deps s) (wds s) (qfs s) (afs s) (led s) v (owed s) (surplus s) (ge_owed s) (farmed s).
+Definition set_owed (s : state) v := mkState (apps s) (assets s) (pairs s) (last_pair s) (orders s) (mmidx s) (pools s) (last_pool s) (deps s) (wds s) (qfs s) (afs s) (led s) (sup s) v (surplus s) (ge_owed s) (farmed s).
+Definition set_surplus (s : state) v := mkState (apps s) (assets s) (pairs s) (last_pair s) (orders s) (mmidx s) (pools s) (last_pool s) (deps s) (wds s) (qfs s) (afs s) (led s) (sup s) (owed s) v (ge_owed s) (farmed s).
+Definition set_ge_owed (s : state) v := mkState (apps s) (assets s) (pairs s) (last_pair s) (orders s) (mmidx s) (pools s) (last_pool s) (deps s) (wds s) (qfs s) (afs s) (led s) (sup s) (owed s) (surplus s) v (farmed s).
+Definition set_farmed (s : state) v := mkState (apps s) (assets s) (pairs s) (last_pair s) (orders s) (mmidx s) (pools s) (last_pool s) (deps s) (wds s) (qfs s) (afs s) (led s) (sup s) (owed s) (surplus s) (ge_owed s) v.
 
 Definition fadd3 (f : Z -> Z -> Z -> Z) (a p d x : Z) : Z -> Z -> Z -> Z :=
   fun a' p' d' => if (a =? a') && (p =? p') && (d =? d') then f a' p' d' + x else f a' p' d'.
@@ -284,6 +288,7 @@ Definition new_ghost (taken : Z) : ghost := mkGhost taken 0 0 0 0 [].
 
 (* the common tail of LimitOrder / MarketOrder once price, offer coin and fee are known *)
 Definition place (s : state) (m : order_msg) (typ : Z) (pr : pair) (price offer fee now : Z) : outcome state :=
+  if offer <? 0 then Panic else                               (* sdk.NewCoin panics on a negative amount *)
   do s1 <- ssend s (User (m_owner m)) (Escrow (m_app m) (m_pair m)) (m_odenom m) (offer + fee);
   let id := p_last_order pr + 1 in
   let pr' := mkPair (p_app pr) (p_id pr) (p_base pr) (p_quote pr) id (p_last_price pr) (p_batch pr) in
@@ -510,7 +515,8 @@ Definition mm_order (s : state) (m : mm_msg) (now : Z) : outcome state :=
         | Some bt, Some st =>
           let oq := sum_offer bt in
           let ob := sum_offer st in
-          if led s (User (mm_owner m)) (p_base pr) <? ob then Err 5
+          if existsb (fun t => snd t <? 0) (bt ++ st) then Panic          (* sdk.NewCoin / NewCoins on a negative amount *)
+          else if led s (User (mm_owner m)) (p_base pr) <? ob then Err 5
           else if led s (User (mm_owner m)) (p_quote pr) <? oq then Err 5
           else if mm_life m >? pr_max_life P then Err 2
           else
@@ -549,7 +555,8 @@ Definition apply_fill (s : state) (app pair : Z) (f : Z * Z * Z * Z) : outcome s
   match find_order (app, pair, id) (orders s) with
   | None => Panic                                            (* zero-valued order: nil Int arithmetic *)
   | Some (o, g) =>
-    if (o_rem o - paid <? 0) || (paid <? 0) || (recv <? 0) then Panic      (* Coin.Sub / NewCoin negative *)
+    if negb (is_live (o_status o)) then Err 99      (* ENV inconsistent: the order book only holds live orders *)
+    else if (o_rem o - paid <? 0) || (paid <? 0) || (recv <? 0) then Panic      (* Coin.Sub / NewCoin negative *)
     else
       let o1 := set_fill o matched paid recv (o_status o) in
       let g1 := mkGhost (g_taken g) (g_ret_offer g) (g_ret_fee g) (g_recv g + recv) (g_fee_fwd g)
@@ -722,7 +729,8 @@ Definition deposit_req (s : state) (app owner pid x y : Z) : outcome (state * de
         let id := pl_last_dep pl + 1 in
         let pl' := mkPool (pl_app pl) (pl_id pl) (pl_pair pl) (pl_ranged pl) (pl_disabled pl) id (pl_last_wd pl) in
         let r := mkDep app pid id owner x y 0 0 0 1 in
-        Ok (set_deps (set_pools s2 (ins_pool pl' (pools s2))) (deps s2 ++ [r]), r)
+        let s3 := set_ge_owed s2 (fadd1 (fadd1 (ge_owed s2) (p_base pr) y) (p_quote pr) x) in
+        Ok (set_deps (set_pools s3 (ins_pool pl' (pools s3))) (deps s3 ++ [r]), r)
     end
   end.
 
@@ -737,7 +745,8 @@ Definition withdraw_req (s : state) (app owner pid pc : Z) : outcome (state * wd
     let id := pl_last_wd pl + 1 in
     let pl' := mkPool (pl_app pl) (pl_id pl) (pl_pair pl) (pl_ranged pl) (pl_disabled pl) (pl_last_dep pl) id in
     let r := mkWd app pid id owner pc 0 0 1 in
-    Ok (set_wds (set_pools s1 (ins_pool pl' (pools s1))) (wds s1 ++ [r]), r)
+    let s2 := set_ge_owed s1 (fadd1 (ge_owed s1) (pool_denom app pid) pc) in
+    Ok (set_wds (set_pools s2 (ins_pool pl' (pools s2))) (wds s2 ++ [r]), r)
   end.
 
 Definition dep_eqb (a b : depreq) : bool := (d_app a =? d_app b) && (d_pool a =? d_pool b) && (d_id a =? d_id b).
@@ -749,7 +758,8 @@ Definition put_wd (s : state) (r : wdreq) : state := set_wds s (map (fun x => if
 Definition fail_dep (s : state) (pr : pair) (r : depreq) : outcome state :=
   do s1 <- ssend s GlobalEscrow (User (d_owner r)) (p_base pr) (d_y r);
   do s2 <- ssend s1 GlobalEscrow (User (d_owner r)) (p_quote pr) (d_x r);
-  Ok (put_dep s2 (mkDep (d_app r) (d_pool r) (d_id r) (d_owner r) (d_x r) (d_y r) 0 0 0 3)).
+  let s3 := set_ge_owed s2 (fadd1 (fadd1 (ge_owed s2) (p_base pr) (- d_y r)) (p_quote pr) (- d_x r)) in
+  Ok (put_dep s3 (mkDep (d_app r) (d_pool r) (d_id r) (d_owner r) (d_x r) (d_y r) 0 0 0 3)).
 
 (* ExecuteDepositRequest (pool.go:500-560); (ax, ay, pc) = amm.Deposit's result (ENV) *)
 Definition exec_deposit (s : state) (r : depreq) (ax ay pc : Z) : outcome state :=
@@ -771,13 +781,15 @@ Definition exec_deposit (s : state) (r : depreq) (ax ay pc : Z) : outcome state 
         do s3 <- ssend s2 Module (User (d_owner r)) pd pc;
         do s4 <- ssend s3 GlobalEscrow (User (d_owner r)) (p_base pr) (d_y r - ay);
         do s5 <- ssend s4 GlobalEscrow (User (d_owner r)) (p_quote pr) (d_x r - ax);
-        Ok (put_dep s5 (mkDep (d_app r) (d_pool r) (d_id r) (d_owner r) (d_x r) (d_y r) ax ay pc 2))
+        let s6 := set_ge_owed s5 (fadd1 (fadd1 (ge_owed s5) (p_base pr) (- d_y r)) (p_quote pr) (- d_x r)) in
+        Ok (put_dep s6 (mkDep (d_app r) (d_pool r) (d_id r) (d_owner r) (d_x r) (d_y r) ax ay pc 2))
     end
   end.
 
 Definition fail_wd (s : state) (r : wdreq) : outcome state :=
   do s1 <- ssend s GlobalEscrow (User (w_owner r)) (pool_denom (w_app r) (w_pool r)) (w_pc r);
-  Ok (put_wd s1 (mkWd (w_app r) (w_pool r) (w_id r) (w_owner r) (w_pc r) 0 0 3)).
+  let s2 := set_ge_owed s1 (fadd1 (ge_owed s1) (pool_denom (w_app r) (w_pool r)) (- w_pc r)) in
+  Ok (put_wd s2 (mkWd (w_app r) (w_pool r) (w_id r) (w_owner r) (w_pc r) 0 0 3)).
 
 (* ExecuteWithdrawRequest (pool.go:597-660); (x, y) = amm.Withdraw's result (ENV) *)
 Definition exec_withdraw (s : state) (r : wdreq) (x y : Z) : outcome state :=
@@ -800,7 +812,8 @@ Definition exec_withdraw (s : state) (r : wdreq) (x y : Z) : outcome state :=
         if led s3 Module pd <? w_pc r then Err 5 else
         let s4 := set_sup (set_led s3 (ladd (led s3) Module pd (- w_pc r))) (fadd1 (sup s3) pd (- w_pc r)) in   (* BurnCoins *)
         let s5 := if w_pc r =? ps then set_pools s4 (ins_pool (disable pl) (pools s4)) else s4 in
-        Ok (put_wd s5 (mkWd (w_app r) (w_pool r) (w_id r) (w_owner r) (w_pc r) x y 2))
+        let s6 := set_ge_owed s5 (fadd1 (ge_owed s5) pd (- w_pc r)) in
+        Ok (put_wd s6 (mkWd (w_app r) (w_pool r) (w_id r) (w_owner r) (w_pc r) x y 2))
     end
   end.
 
@@ -826,7 +839,8 @@ Definition farm (s : state) (app owner pid amt now : Z) : outcome state :=
   | Some _ =>
     do s1 <- ssend s (User owner) Module (pool_denom app pid) amt;
     let q := match find_qf app pid owner (qfs s1) with Some q => q | None => mkQF app pid owner [] end in
-    Ok (set_qfs s1 (put_qf (mkQF app pid owner (q_coins q ++ [(amt, now)])) (qfs s1)))
+    let s2 := set_farmed s1 (fadd1 (farmed s1) (pool_denom app pid) amt) in
+    Ok (set_qfs s2 (put_qf (mkQF app pid owner (q_coins q ++ [(amt, now)])) (qfs s2)))
   end.
 
 (* the loop of rewards.go:427-441: consume the queue from its END (last queued first); entries are
@@ -872,7 +886,9 @@ Definition unfarm (s : state) (app owner pid amt : Z) : outcome state :=
                     else s1 in
           match qf with
           | None => Panic                                      (* SetQueuedFarmer of the zero-valued record: empty bech32 *)
-          | Some _ => Ok (set_qfs s2 (put_qf (mkQF app pid owner newq) (qfs s2)))
+          | Some _ =>
+            let s3 := set_farmed s2 (fadd1 (farmed s2) (pool_denom app pid) (- amt)) in
+            Ok (set_qfs s3 (put_qf (mkQF app pid owner newq) (qfs s3)))
           end
         end
     end
@@ -993,7 +1009,8 @@ Definition unfarm_and_withdraw (s : state) (app owner pid pc x y : Z) : outcome 
 
 Definition step (s : state) (o : op) : outcome state :=
   match o with
-  | OAddApp app P => Ok (set_apps s (aset (apps s) app P))
+  | OAddApp app P => if has_app s app then Err 30      (* an app is registered once; parameter updates are not modelled *)
+                     else Ok (set_apps s (aset (apps s) app P))
   | OAddAsset d => Ok (set_assets s (d :: assets s))
   | OFund who d amt => Ok (set_led s (ladd (led s) (User who) d amt))
   | OCreatePair app c b q => create_pair s app c b q
